@@ -41,7 +41,7 @@ class RaiseSig(Exception):
 
 class Obligation:
     __slots__ = ("oid", "kind", "label", "pc", "hyps", "goal", "path", "props", "unit", "finding",
-                 "status", "backend", "time", "model", "detail", "theory", "src")
+                 "status", "backend", "time", "model", "detail", "theory", "src", "base_len", "extra")
 
     def __init__(self, **kw):
         for k in self.__slots__:
@@ -323,6 +323,7 @@ class Base:
         self.obligations.append(Obligation(
             oid="%s/%s[%s]/%s" % (self.unit.short, kind, label, sig),
             kind=kind, label=label, pc=list(self.pc) + list(extra_pc), hyps=list(self.hyps), goal=goal,
+            base_len=len(self.pc), extra=list(extra_pc),
             path=sig, props=props or self.unit.contract.props, unit=self.unit.short, finding=finding,
             theory=self.th, src=src))
 
